@@ -18,6 +18,7 @@ CONSTANTS
   PortFaults, \* BOOLEAN: listener start-up may fail
   Cuts,       \* BOOLEAN: peers may vanish, the server may be closed
   MaxNow, MaxDin,
+  Pipe,       \* BOOLEAN: clients may pipeline CWD/CDUP/PWD/TYPE/SYST behind a command that has not been answered yet
   MaxLevel   \* bound on the depth of the search (quick configurations)
 
 MCInit == Init /\ tree = InitTree
@@ -28,8 +29,10 @@ EphPort == 40001
 
 CanSend(s, c) ==
   /\ ss[s].ph = "open" /\ ss[s].outq = <<>> /\ ~ss[s].ceof
-  /\ \/ ss[s].h = NoH /\ (ss[s].w.v = "" \/ c.v \notin WorkerVerbs)
+  /\ \/ ss[s].h = NoH /\ ss[s].h2 = NoH /\ (ss[s].w.v = "" \/ c.v \notin WorkerVerbs)
      \/ c.v = "abor" /\ ss[s].h # NoH
+     \/ \* pipelined: handled while the previous command's handler has not answered yet
+        Pipe /\ c.v \in OvertakingVerbs /\ ss[s].h.v \in OvertakenVerbs /\ ss[s].h2 = NoH /\ ss[s].ab = ""
 
 Take(q, n) == SubSeq(q, 1, IF Len(q) < n THEN Len(q) ELSE n)
 
